@@ -5,9 +5,11 @@ go 1.23.4
 require (
 	github.com/bufbuild/buf v0.0.0
 	github.com/klauspost/compress v1.18.0
+	google.golang.org/protobuf v1.36.6
 )
 
 require (
+	github.com/bufbuild/protoplugin v0.0.0-20250218205857-750e09ce93e1 // indirect
 	golang.org/x/crypto v0.37.0 // indirect
 	golang.org/x/sys v0.32.0 // indirect
 )
